@@ -70,11 +70,15 @@ pub fn run() {
         let groups: Vec<String> = (0..n).map(|i| unhex_str(t[5 + i])).collect();
         let pname = unhex_str(t[5 + n]);
         let exe = unhex_str(t[6 + n]);
-        let item: AuthorizationItem = match serde_json::from_str(&json) {
-            Ok(i) => i,
-            Err(e) => {
-                out.line(&format!("json-error"));
-                let _ = e;
+        // the production path: the item arrives inside a key status document and is handed on by KeyStatus::get_imds_rules()
+        let ks_json = format!(
+            r#"{{"authorizationScheme":"Azure-HMAC-SHA256","keyDeliveryMethod":"http","keyGuid":null,"requiredClaimsHeaderPairs":null,"secureChannelEnabled":true,"version":"2.0","authorizationRules":{{"imds":{}}}}}"#,
+            json
+        );
+        let item: AuthorizationItem = match serde_json::from_str::<crate::key_keeper::key::KeyStatus>(&ks_json).map(|s| s.get_imds_rules()) {
+            Ok(Some(i)) => i,
+            _ => {
+                out.line("json-error");
                 continue;
             }
         };
